@@ -50,7 +50,7 @@ Fixpoint compile (e : expr) : code :=
   | EFloat _ f => at_ here [IPush (VNum (NFlt KF64 f))]
   | EBool _ b => at_ here [if b then ITrue else IFalse]
   | EStr _ s => at_ here [IPush (VStr s)]
-  | EConst _ v => at_ here [IPush v]
+  | EConst _ v => at_ here [match v with VNil => INil | _ => IPush v end]
   | EUnary _ op x =>
       compile x ++ at_ here (match op with
                              | UNotBang | UNotWord => [INot]
